@@ -498,4 +498,62 @@ def getConstants {V : Type} : Nat → List (String × PVal V) → (String → Op
     let (env', unmatched) := sweep data.reverse env []
     if unmatched.length < data.length then getConstants fuel unmatched env' else none
 
+/-! ## 4b. the setters of `rMin` / `rMax` and a value of `rp` given in the file
+
+`Constants.rMin` / `Constants.rMax` are properties: their setters also assign `rp = 0.5*(rMin + rMax)` as soon as both ends
+are known (constants.py:45-63), also when `set_defaults` assigns them.  `get_constants` therefore applies an `rp` of the file
+once more after the sweeps and the defaults (constants.py, finding F25).  `mid` stands for `fun a b => 0.5*(a + b)`. -/
+
+/-- `setattr(constants, k, v)` -/
+def setAttr {V : Type} (mid : V → V → V) (env : String → Option V) (k : String) (v : V) : String → Option V :=
+  if k = "rMin" then
+    match env "rMax" with
+    | some b => setEnv (setEnv env "rMin" v) "rp" (mid v b)
+    | none => setEnv env "rMin" v
+  else if k = "rMax" then
+    match env "rMin" with
+    | some a => setEnv (setEnv env "rMax" v) "rp" (mid a v)
+    | none => setEnv env "rMax" v
+  else setEnv env k v
+
+/-- `sweep` with the real setters -/
+def sweepA {V : Type} (mid : V → V → V) : List (String × PVal V) → (String → Option V) → List (String × PVal V) →
+    (String → Option V) × List (String × PVal V)
+  | [], env, unmatched => (env, unmatched)
+  | (k, pv) :: rest, env, unmatched =>
+    match evalP env pv with
+    | some v => sweepA mid rest (setAttr mid env k v) unmatched
+    | none => sweepA mid rest env (unmatched ++ [(k, pv)])
+
+/-- the sweeps of `get_constants` with the real setters (the parser before F25 stops here) -/
+def getConstantsA {V : Type} (mid : V → V → V) : Nat → List (String × PVal V) → (String → Option V) → Option (String → Option V)
+  | _, [], env => some env
+  | 0, _ :: _, _ => none
+  | fuel + 1, data, env =>
+    let (env', unmatched) := sweepA mid data.reverse env []
+    if unmatched.length < data.length then getConstantsA mid fuel unmatched env' else none
+
+/-- `set_defaults`: `for key, val in defaults.items(): if getattr(self, key) is None: setattr(self, key, val)`; `set` is the
+    assignment (`setAttr mid` for the real class, `setEnv` for a class without setters) -/
+def applyDefaults {V : Type} (set : (String → Option V) → String → V → (String → Option V)) (defaults : List (String × V))
+    (env : String → Option V) : String → Option V :=
+  defaults.foldl (fun e kv => if (e kv.1).isNone then set e kv.1 kv.2 else e) env
+
+/-- `get_constants` up to `getCN0`: the sweeps, `set_defaults`, then `rp` of the file (if any) once more:
+    `constants.rp = eval_expr(rp, constants) if isinstance(rp, str) else rp` -/
+def getConstantsRp {V : Type} (mid : V → V → V) (defaults : List (String × V)) (fuel : Nat) (data : List (String × PVal V)) :
+    Option (String → Option V) :=
+  match getConstantsA mid fuel data (fun _ => none) with
+  | none => none
+  | some env =>
+    let env' := applyDefaults (setAttr mid) defaults env
+    match data.lookup "rp" with
+    | none => some env'
+    | some pv => some (fun k => if k = "rp" then evalP env' pv else env' k)
+
+/-- the parser before the fix F25: sweeps and defaults only -/
+def getConstantsOld {V : Type} (mid : V → V → V) (defaults : List (String × V)) (fuel : Nat) (data : List (String × PVal V)) :
+    Option (String → Option V) :=
+  (getConstantsA mid fuel data (fun _ => none)).map (applyDefaults (setAttr mid) defaults)
+
 end PygyroVerif.Ckpt
